@@ -61,6 +61,9 @@ func evalFunctionCall(vm *r.VM, expr *syntax.FuncCallExpr) (r.Element, error) {
 }
 
 func execMethodFunction(vm *r.VM, root r.Element, funcName *r.IDName, params []r.Element) (r.Element, error) {
+	if vm.CallDepthExceeded() {
+		return nil, zerr.CallDepthExceeded(r.MaxCallDepth)
+	}
 	switch robj := root.(type) {
 	case *value.Object:
 		// the method runs in the module that defines the object's type; looking the type's
@@ -108,6 +111,10 @@ func execDirectFunction(vm *r.VM, funcName *r.IDName, params []r.Element) (r.Ele
 	// through (an alias of an imported method, a parameter, a loop variable)
 	if fn.GetModule() != nil {
 		module = fn.GetModule()
+	}
+	// a recursion that never ends is an error of the program, not the end of the process
+	if vm.CallDepthExceeded() {
+		return nil, zerr.CallDepthExceeded(r.MaxCallDepth)
 	}
 	// pushCallFrame
 	fnCallFrame := r.NewFunctionCallFrame(module, nil)
